@@ -12,8 +12,12 @@ import "fmt"
 func VerifH_C02_go_api() {
 	vm := New()
 	maxStr := verifParam("maxstr", 1)
-	tk := verifChoose(16)
+	tk := verifChoose(18)
 	switch {
+	case tk == 16:
+		vm.Run("T = [[[1]], [['a']], [[]], [1, 'a'], [{}], [[null]]]")
+	case tk == 17:
+		vm.Run("T = [[1, 2], [3], {length: 1, 0: [4]}, [[5]], , undefined]")
 	case tk < 12:
 		verifSetKind(vm, "T", tk, maxStr)
 	case tk == 12:
@@ -118,6 +122,12 @@ func VerifH_C02_go_api() {
 			vm.Run([]byte("T"))
 		case 21:
 			vm.Call("", nil)
+			vm.Call("// only a comment", nil)
+			vm.Call("   ", nil)
+			vm.Call(";", nil)
+			vm.Call("/* c */ new // x", nil)
+			vm.Call("new ", nil)
+			vm.Call("new", a)
 			vm.Call("(", nil)
 			vm.Call("A", nil)
 			vm.Call("A.b.c", nil)
